@@ -175,5 +175,8 @@ class CacheView(Table):
                 yield row
 
             # does the cache contain a complete copy of the inner table?
-            if not self.n or len(self.cache) < self.n:
+            # N.B., only if it holds every row this iterator has served, the
+            # cache may have been cleared while this iterator was running
+            if (not self.n or len(self.cache) < self.n) \
+                    and len(self.cache) == nserved:
                 self.cachecomplete = True
